@@ -229,6 +229,7 @@ pub mod cfgs {
     pub mod bb {
         pub use p3_test_utils::baby_bear_params::*;
         pub const CFG_NAME: &str = "babybear-d4-w16";
+        pub const MAX_LOG_ARITY: usize = crate::kit::FRI_MAX_LOG_ARITY;
         pub const CAP_HEIGHT: usize = 0;
         pub const ZK: bool = false;
         pub const FRI_PREFIX: &str = "";
@@ -263,6 +264,7 @@ pub mod cfgs {
     pub mod bbc {
         pub use p3_test_utils::baby_bear_params::*;
         pub const CFG_NAME: &str = "babybear-d4-w16-cap2";
+        pub const MAX_LOG_ARITY: usize = crate::kit::FRI_MAX_LOG_ARITY;
         pub const CAP_HEIGHT: usize = 2;
         pub const ZK: bool = false;
         pub const FRI_PREFIX: &str = "";
@@ -297,6 +299,42 @@ pub mod cfgs {
     pub mod kb {
         pub use p3_test_utils::koala_bear_params::*;
         pub const CFG_NAME: &str = "koalabear-d4-w16";
+        pub const MAX_LOG_ARITY: usize = crate::kit::FRI_MAX_LOG_ARITY;
+        pub const CAP_HEIGHT: usize = 0;
+        pub const ZK: bool = false;
+        pub const FRI_PREFIX: &str = "";
+        pub fn perm_cfg() -> p3_recursion::Poseidon2Config {
+            p3_recursion::Poseidon2Config::KOALA_BEAR_D4_W16
+        }
+        pub fn default_perm() -> Perm {
+            default_koalabear_poseidon2_16()
+        }
+        pub fn enable_ops(cb: &mut p3_circuit::CircuitBuilder<Challenge>) {
+            cb.enable_poseidon2_perm::<p3_poseidon2_circuit_air::KoalaBearD4Width16, _>(
+                p3_circuit::ops::generate_poseidon2_trace::<Challenge, p3_poseidon2_circuit_air::KoalaBearD4Width16>,
+                default_perm(),
+            );
+            cb.enable_recompose::<F>(p3_circuit::ops::generate_recompose_trace::<F, Challenge>);
+        }
+        pub fn new_builder() -> p3_circuit::CircuitBuilder<Challenge> {
+            let mut cb = p3_circuit::CircuitBuilder::<Challenge>::new();
+            enable_ops(&mut cb);
+            cb
+        }
+        pub type NlBackend = p3_recursion::FriRecursionBackendForExt<D, WIDTH, RATE, p3_recursion::Poseidon2Config>;
+        pub fn nl_backend() -> NlBackend {
+            p3_recursion::FriRecursionBackend::<WIDTH, RATE, p3_recursion::Poseidon2Config>::new(perm_cfg())
+                .for_extension_degree::<D>()
+        }
+        include!("plain_pcs.rs");
+        include!("cfg_body.rs");
+    }
+
+    /// (FRI folding arity up to 4: roll-ins after a phase of log-arity 2) KoalaBear, degree-4 binomial extension, Poseidon2 width 16.
+    pub mod kba {
+        pub use p3_test_utils::koala_bear_params::*;
+        pub const CFG_NAME: &str = "koalabear-d4-w16-arity4";
+        pub const MAX_LOG_ARITY: usize = 2;
         pub const CAP_HEIGHT: usize = 0;
         pub const ZK: bool = false;
         pub const FRI_PREFIX: &str = "";
@@ -331,6 +369,7 @@ pub mod cfgs {
     pub mod kb5 {
         pub use p3_test_utils::koala_bear_quintic_params::*;
         pub const CFG_NAME: &str = "koalabear-quintic-w16";
+        pub const MAX_LOG_ARITY: usize = crate::kit::FRI_MAX_LOG_ARITY;
         pub const CAP_HEIGHT: usize = 0;
         pub const ZK: bool = false;
         pub const FRI_PREFIX: &str = "";
@@ -366,6 +405,7 @@ pub mod cfgs {
     pub mod gl {
         pub use p3_test_utils::goldilocks_params::*;
         pub const CFG_NAME: &str = "goldilocks-d2-w8";
+        pub const MAX_LOG_ARITY: usize = crate::kit::FRI_MAX_LOG_ARITY;
         pub const CAP_HEIGHT: usize = 0;
         pub const ZK: bool = false;
         pub const FRI_PREFIX: &str = "";
@@ -407,6 +447,7 @@ pub mod cfgs {
         pub use p3_test_utils::koala_bear_params::{BasedVectorSpace, PrimeCharacteristicRing};
         use p3_test_utils::koala_bear_params::default_koalabear_poseidon2_16;
         pub const CFG_NAME: &str = "koalabear-d4-w16-zk";
+        pub const MAX_LOG_ARITY: usize = crate::kit::FRI_MAX_LOG_ARITY;
         pub const CAP_HEIGHT: usize = 0;
         pub const ZK: bool = true;
         pub const FRI_PREFIX: &str = "[1]";
@@ -440,6 +481,7 @@ pub mod cfgs {
         pub use p3_test_utils::koala_bear_params::{BasedVectorSpace, Field, PrimeCharacteristicRing};
         use p3_test_utils::koala_bear_params::default_koalabear_poseidon2_16;
         pub const CFG_NAME: &str = "koalabear-d4-w16-zk-hidingmmcs";
+        pub const MAX_LOG_ARITY: usize = crate::kit::FRI_MAX_LOG_ARITY;
         pub const CAP_HEIGHT: usize = 0;
         pub const ZK: bool = true;
         pub const FRI_PREFIX: &str = "[1]";
@@ -473,6 +515,7 @@ pub mod cfgs {
         pub use p3_test_utils::koala_bear_params::{BasedVectorSpace, Field, PrimeCharacteristicRing};
         use p3_test_utils::koala_bear_params::default_koalabear_poseidon2_16;
         pub const CFG_NAME: &str = "koalabear-d4-w16-zk-hidingmmcs-cap2";
+        pub const MAX_LOG_ARITY: usize = crate::kit::FRI_MAX_LOG_ARITY;
         pub const CAP_HEIGHT: usize = 2;
         pub const ZK: bool = true;
         pub const FRI_PREFIX: &str = "[1]";
@@ -548,6 +591,10 @@ pub fn all_shapes(thorough: bool) -> Vec<Box<dyn Shape>> {
         v.push(cfgs::bbc::batch(vec![mulp, add, sub]));
         v.push(cfgs::bbc::circ(6));
         v.push(cfgs::kbzkhc::batch(vec![add64]));
+        // FRI arity 4 with inputs of several heights (roll-in after a log-arity-2 phase)
+        v.push(cfgs::kba::batch(vec![TAir::Add { rows: 32 }, TAir::Sub { rows: 8 }]));
+        v.push(cfgs::kba::uni(mulp));
+        v.push(cfgs::kba::circ(6));
     }
     if thorough {
         // larger instances: more FRI phases, wider traces, more tables rows, more quotient chunks
@@ -624,6 +671,7 @@ pub fn probe_shape(spec: &str) -> Option<Box<dyn Shape>> {
     match parts[0] {
         "bb" => mk!(bb),
         "bbc" => mk!(bbc),
+        "kba" => mk!(kba),
         "kbzkhc" => mk!(kbzkhc),
         "kb" => mk!(kb),
         "kb5" => mk!(kb5),
